@@ -1,4 +1,7 @@
 import FgaVerif.Proofs.Merge
+import FgaVerif.Proofs.MergeValues
+import FgaVerif.Proofs.MergeAttr
+import FgaVerif.Proofs.MergeConds
 /-! # C07 — module merge succeeds iff conflict-free (and C12: independently of the order of the files)
 
     Theorems about `Model/Merge.lean`, the port of `TransformModuleFilesToModel` (in its repaired form,
@@ -26,8 +29,18 @@ import FgaVerif.Proofs.Merge
       merge succeeds.
     * `conflict_free_order_independent` — because the predicate is symmetric.
 
-    Not proved here: conservation of the *contents* (rewrites unchanged, module/file attribution of
-    every type, relation and condition — the result is exactly the attributed union) and that a permutation
+    * `merge_conserves_rewrites` — and **rewrites are unchanged**: relation `k` of type `n` is bound to
+      `v` in the result iff some definition or extension of `n` in the files declares `k` with exactly `v`.
+
+    * `merge_attributes_types` — and every type carries the module of its definition and the name of
+      the file that defined it, whatever extensions were applied.
+
+    * `merge_conserves_conditions` — and every condition of the result is exactly the declared one
+      (name, expression, parameters, module) with the declaring file's name recorded; a name nobody
+      declares is absent.
+
+    Not proved here: the module/file attribution of *relations* added by extensions
+    (`GetModuleForObjectTypeRelation`), and that a permutation
     changes nothing but the order of type definitions on success; determinism of the error list is by
     construction in the port (no map order exists in it).  Those are evaluated on the real code by the
     oracles of C07 and C12. -/
@@ -365,6 +378,224 @@ theorem merge_conserves_names (fs : List FileIn) (v : String) (wf : FilesWF fs) 
     · simp only [MergeOutcome.ok.injEq] at h
       subst h
       exact ⟨g4, g5, g6 (g3.2 ⟨hcf.targets, hcf.relations⟩)⟩
+    · cases h
+
+/-- the rewrite bound to relation `k` of the base definition named `n`, with distinct type names -/
+theorem valNow_raw (fs : List FileIn) (hnd : (fs.flatMap fileBaseNames).Nodup) (n k : String) (v : Userset) :
+    valNow (fs.flatMap fileRaw) n k = some v ↔
+      ∃ d ∈ fs.flatMap fileBaseDefs, d.name = n ∧ AList.find? k d.relations = some v := by
+  have hnames : (fs.flatMap fileRaw).map (·.name) = fs.flatMap fileBaseNames := names_raw fs
+  unfold valNow
+  constructor
+  · intro h
+    cases hf : (fs.flatMap fileRaw).find? (fun t => t.name == n) with
+    | none => simp [hf] at h
+    | some t =>
+      simp only [hf] at h
+      have htm := List.mem_of_find?_eq_some hf
+      have htn : t.name = n := by simpa using List.find?_some hf
+      obtain ⟨f, hf', htf⟩ := List.mem_flatMap.1 htm
+      obtain ⟨d, hd, rfl⟩ := List.mem_map.1 htf
+      exact ⟨d, List.mem_flatMap.2 ⟨f, hf', hd⟩, by rw [← setTypeFile_name d f.name]; exact htn,
+        by rw [← setTypeFile_relations d f.name]; exact h⟩
+  · rintro ⟨d, hd, hdn, hv⟩
+    obtain ⟨f, hf', hdf⟩ := List.mem_flatMap.1 hd
+    have hmem : setTypeFile d f.name ∈ fs.flatMap fileRaw :=
+      List.mem_flatMap.2 ⟨f, hf', List.mem_map.2 ⟨d, hdf, rfl⟩⟩
+    -- the first definition named n is this one, because names are distinct
+    have huniq : ∀ (l : List TypeDef), (l.map (·.name)).Nodup → ∀ t ∈ l, t.name = n →
+        l.find? (fun t => t.name == n) = some t := by
+      intro l
+      induction l with
+      | nil => intro _ t ht; simp at ht
+      | cons a rest ih =>
+        intro hnd t ht htn
+        simp only [List.map_cons, List.nodup_cons] at hnd
+        rcases List.mem_cons.1 ht with rfl | ht
+        · simp [List.find?_cons, htn]
+        · have hne : a.name ≠ n := fun e => hnd.1 (e ▸ htn ▸ List.mem_map.2 ⟨t, ht, rfl⟩)
+          have : (a.name == n) = false := by simpa using hne
+          simp only [List.find?_cons, this]
+          exact ih hnd.2 t ht htn
+    rw [huniq _ (by rw [hnames]; exact hnd) _ hmem (by rw [setTypeFile_name]; exact hdn)]
+    simp only [setTypeFile_relations]
+    exact hv
+
+/-- **rewrites are conserved**: on success, relation `k` of type `n` is bound to the rewrite `v` in the
+    result iff some definition or extension of `n` in the files declares `k` with exactly `v` -/
+theorem merge_conserves_rewrites (fs : List FileIn) (ver : String) (wf : FilesWF fs) (m : Model)
+    (h : merge fs ver = .ok m) (n k : String) (v : Userset) :
+    valNow m.types n k = some v ↔
+      ∃ d ∈ fs.flatMap fileBaseDefs ++ fs.flatMap fileExtDefs, d.name = n ∧ AList.find? k d.relations = some v := by
+  have hcf := (merge_ok_iff_conflict_free fs ver wf).1 ⟨m, h⟩
+  have hclean : filesClean fs [] [] = true :=
+    (filesClean_iff fs [] []).2 ⟨hcf.modules, by simp, hcf.types, by simp, hcf.conds⟩
+  unfold merge at h
+  split at h
+  · cases h
+  · rename_i st hcol
+    have hrc := collect_raw fs {} st [] (fun x => by simp [AList.contains, AList.find?]) hcol hclean
+    have hraw : st.rawTypeDefs = fs.flatMap fileRaw := by simpa using hrc.1
+    obtain ⟨_, hperm, _⟩ := collect_state fs {} st hcol (by simp [AList.SortedKeys])
+    simp only [List.flatMap_nil, List.nil_append] at hperm
+    obtain ⟨hbwf, hewf⟩ := fileDefs_wf wf
+    have hnames : st.rawTypeDefs.map (·.name) = fs.flatMap fileBaseNames := by rw [hraw]; exact names_raw fs
+    have hR : ∀ t ∈ st.rawTypeDefs, t.md.isSome = true := by
+      intro t ht
+      rw [hraw] at ht
+      obtain ⟨f, hf, htf⟩ := List.mem_flatMap.1 ht
+      obtain ⟨td, htd, rfl⟩ := List.mem_map.1 htf
+      have hmod := hcf.modules f hf
+      unfold fileIsModule at hmod
+      unfold fileBaseDefs at htd
+      split at hmod
+      · simp_all
+      · simp_all
+      · rename_i m' e' hout
+        simp only [hout] at htd
+        exact setTypeFile_md td f.name (md_of_modName td (hmod.1 td htd))
+    have hE : ∀ x ∈ st.extended, ∀ e ∈ x.2, ExtWF e ∧ (AList.keys e.relations).Nodup := by
+      intro x hx e he
+      have : e ∈ st.extended.flatMap (·.2) := List.mem_flatMap.2 ⟨x, hx, he⟩
+      have := hewf e (hperm.mem_iff.1 this)
+      exact ⟨this.2, this.1⟩
+    -- the second loop raised no error, so the extensions are clean
+    obtain ⟨st2, E2, g1, g2, _, _, g5, _⟩ := applyAll_spec st.extended st (fun n k => k ∈ curKeys st.rawTypeDefs n) hR
+      (fun x hx e he => (hE x hx e he).1) (fun _ _ => Iff.rfl)
+    rw [g1] at h
+    simp only at h
+    split at h
+    · rename_i hemp
+      simp only [MergeOutcome.ok.injEq] at h
+      subst h
+      have hst2 : st2.errors = [] := by simpa using hemp
+      have hE2 : E2 = [] := by rw [g2] at hst2; exact (List.append_eq_nil_iff.1 hst2).2
+      have hcl := g5.1 hE2
+      obtain ⟨st2', f1, f2⟩ := applyAll_values st.extended st (fun n k => k ∈ curKeys st.rawTypeDefs n) hR hE
+        (fun _ _ => Iff.rfl) hcl
+      have : st2' = st2 := by rw [g1] at f1; simp only [Except.ok.injEq] at f1; exact f1.symm
+      subst this
+      show valNow st2'.rawTypeDefs n k = some v ↔ _
+      rw [f2 n k]
+      have hKV : ∀ n k, k ∈ curKeys st.rawTypeDefs n ↔ (valNow st.rawTypeDefs n k).isSome = true := by
+        intro n k
+        unfold curKeys valNow
+        cases st.rawTypeDefs.find? (fun t => t.name == n) with
+        | none => simp
+        | some t => exact (find?_isSome_iff_mem_keys k _).symm
+      rw [valsAfter_some_iff _ _ _ _ hKV hcl n k v, hraw, valNow_raw fs hcf.types n k v]
+      simp only [List.mem_append]
+      constructor
+      · rintro (⟨d, hd, r⟩ | ⟨e, he, r⟩)
+        · exact ⟨d, Or.inl hd, r⟩
+        · exact ⟨e, Or.inr (hperm.mem_iff.1 he), r⟩
+      · rintro ⟨d, hd | hd, r⟩
+        · exact Or.inl ⟨d, hd, r⟩
+        · exact Or.inr ⟨d, hperm.mem_iff.2 hd, r⟩
+    · cases h
+
+theorem tyAttr_setTypeFile (td : TypeDef) (f : String) :
+    tyAttr (setTypeFile td f) = td.md.map (fun md => (md.module, f)) := by
+  unfold setTypeFile tyAttr
+  cases hmd : td.md with
+  | none => simp [hmd]
+  | some m => simp
+
+/-- **types are attributed to the module and the file that defined them**: on success the result lists,
+    in file order, every base definition with the module its definition carries and the name of the
+    file it stands in — whatever extensions were applied to it -/
+theorem merge_attributes_types (fs : List FileIn) (ver : String) (wf : FilesWF fs) (m : Model)
+    (h : merge fs ver = .ok m) :
+    m.types.map (fun t => (t.name, tyAttr t)) =
+      fs.flatMap (fun f => (fileBaseDefs f).map (fun td => (td.name, td.md.map (fun md => (md.module, f.name))))) := by
+  have hcf := (merge_ok_iff_conflict_free fs ver wf).1 ⟨m, h⟩
+  have hclean : filesClean fs [] [] = true :=
+    (filesClean_iff fs [] []).2 ⟨hcf.modules, by simp, hcf.types, by simp, hcf.conds⟩
+  unfold merge at h
+  split at h
+  · cases h
+  · rename_i st hcol
+    have hrc := collect_raw fs {} st [] (fun x => by simp [AList.contains, AList.find?]) hcol hclean
+    have hraw : st.rawTypeDefs = fs.flatMap fileRaw := by simpa using hrc.1
+    have hR : ∀ t ∈ st.rawTypeDefs, t.md.isSome = true := by
+      intro t ht
+      rw [hraw] at ht
+      obtain ⟨f, hf, htf⟩ := List.mem_flatMap.1 ht
+      obtain ⟨td, htd, rfl⟩ := List.mem_map.1 htf
+      have hmod := hcf.modules f hf
+      unfold fileIsModule at hmod
+      unfold fileBaseDefs at htd
+      split at hmod
+      · simp_all
+      · simp_all
+      · rename_i m' e' hout
+        simp only [hout] at htd
+        exact setTypeFile_md td f.name (md_of_modName td (hmod.1 td htd))
+    split at h
+    · cases h
+    · rename_i st2 happ
+      split at h
+      · simp only [MergeOutcome.ok.injEq] at h
+        subst h
+        show st2.rawTypeDefs.map (fun t => (t.name, tyAttr t)) = _
+        rw [applyAll_attr st.extended st st2 hR happ, hraw, List.map_flatMap]
+        congr 1
+        funext f
+        simp only [fileRaw, List.map_map]
+        apply List.map_congr_left
+        intro td _
+        simp [Function.comp, setTypeFile_name, tyAttr_setTypeFile]
+      · cases h
+
+/-- **conditions are conserved and attributed**: on success the condition named `k` of the result is
+    exactly the declared one — name, expression, parameters, module — with the declaring file's name
+    recorded in its metadata; a name nobody declares is absent -/
+theorem merge_conserves_conditions (fs : List FileIn) (ver : String) (wf : FilesWF fs) (m : Model)
+    (h : merge fs ver = .ok m) (k : String) :
+    AList.find? k m.conds = declaredCond fs k := by
+  have hcf := (merge_ok_iff_conflict_free fs ver wf).1 ⟨m, h⟩
+  have hclean : filesClean fs [] [] = true :=
+    (filesClean_iff fs [] []).2 ⟨hcf.modules, by simp, hcf.types, by simp, hcf.conds⟩
+  unfold merge at h
+  split at h
+  · cases h
+  · rename_i st hcol
+    have hc := collect_conds fs {} st [] (fun x => by simp [AList.contains, AList.find?]) hcol hclean k
+    obtain ⟨st2, E2, g1, _, _, _, _, _⟩ := phase2 fs wf st hcol hclean
+    rw [g1] at h
+    simp only at h
+    split at h
+    · simp only [MergeOutcome.ok.injEq] at h
+      subst h
+      -- the second loop does not touch the conditions
+      have hcond : st2.conditions = st.conditions := by
+        obtain ⟨hbwf, hewf⟩ := fileDefs_wf wf
+        obtain ⟨_, hperm, _⟩ := collect_state fs {} st hcol (by simp [AList.SortedKeys])
+        simp only [List.flatMap_nil, List.nil_append] at hperm
+        have hrc := collect_raw fs {} st [] (fun x => by simp [AList.contains, AList.find?]) hcol hclean
+        have hraw : st.rawTypeDefs = fs.flatMap fileRaw := by simpa using hrc.1
+        have hR : ∀ t ∈ st.rawTypeDefs, t.md.isSome = true := by
+          intro t ht
+          rw [hraw] at ht
+          obtain ⟨f, hf, htf⟩ := List.mem_flatMap.1 ht
+          obtain ⟨td, htd, rfl⟩ := List.mem_map.1 htf
+          have hmod := hcf.modules f hf
+          unfold fileIsModule at hmod
+          unfold fileBaseDefs at htd
+          split at hmod
+          · simp_all
+          · simp_all
+          · rename_i m' e' hout
+            simp only [hout] at htd
+            exact setTypeFile_md td f.name (md_of_modName td (hmod.1 td htd))
+        obtain ⟨st2', _, f1, _, f3, _⟩ := applyAll_spec st.extended st (fun n k => k ∈ curKeys st.rawTypeDefs n) hR
+          (fun x hx e he => (hewf e (hperm.mem_iff.1 (List.mem_flatMap.2 ⟨x, hx, he⟩))).2) (fun _ _ => Iff.rfl)
+        have : st2' = st2 := by rw [g1] at f1; simp only [Except.ok.injEq] at f1; exact f1.symm
+        subst this
+        exact f3
+      show AList.find? k st2.conditions = _
+      rw [hcond, hc]
+      cases declaredCond fs k <;> simp [AList.find?]
     · cases h
 
 /-- the predicate does not depend on the order of the files -/
